@@ -23,22 +23,22 @@ def load_all() -> None:
 # property -> rule ids (DESIGN.md section 0 / 6)
 PROPERTY_RULES: Dict[str, List[str]] = {
     "C01": ["STORE-4", "STORE-5", "STORE-6", "STORE-7", "STORE-8", "CTRL-1", "CTRL-2", "CTRL-5", "CTRL-9", "CTRL-10", "CTRL-11", "STORE-11", "STORE-12", "ORD-3"],
-    "C02": ["STORE-5", "TOTAL-3", "TOTAL-4", "TOTAL-6", "TOTAL-7", "USE-1", "ATTR-1", "QUERY-4", "QUERY-5", "QUERY-6", "LOWER-14"],
-    "C03": ["CTRL-5", "CTRL-6", "STORE-8", "STORE-12", "DISP-6", "TOTAL-6", "QUERY-4", "QUERY-5", "QUERY-6", "QUERY-7"],
+    "C02": ["STORE-5", "TOTAL-3", "TOTAL-4", "TOTAL-6", "TOTAL-7", "USE-1", "ATTR-1", "QUERY-4", "QUERY-5", "QUERY-6", "LOWER-14", "QUERY-8"],
+    "C03": ["CTRL-5", "CTRL-6", "STORE-8", "STORE-12", "DISP-6", "TOTAL-6", "QUERY-4", "QUERY-5", "QUERY-6", "QUERY-7", "QUERY-8"],
     "C04": ["STORE-6", "STORE-7", "STORE-8", "DISP-9", "NAME-3", "NAME-4"],
     "C05": ["STORE-1", "STORE-2", "STORE-3", "STORE-4", "STORE-11", "STORE-13", "ORD-3"],
-    "C06": ["CTRL-1", "CTRL-2", "CTRL-3", "CTRL-4", "CTRL-8", "CTRL-9", "CTRL-10", "CTRL-11", "STORE-5"],
-    "C07": ["DISP-5", "DISP-6", "CTRL-5", "CTRL-7", "LOWER-1", "LOWER-2", "LOWER-3", "LOWER-4", "LOWER-6", "LOWER-7", "LOWER-8", "LOWER-9", "LOWER-10", "LOWER-11", "LOWER-12", "LOWER-13", "LOWER-14", "LOWER-15", "STORE-10", "TOTAL-6", "USE-1", "ATTR-1"],
-    "C08": ["LOWER-1", "LOWER-2", "LOWER-3", "LOWER-4", "LOWER-6", "LOWER-12", "LOWER-13", "STORE-10"],
-    "C09": ["TABLE-1", "TABLE-2", "TABLE-3", "TABLE-4", "TABLE-5", "TABLE-6", "ORD-5"],
-    "C10": ["NAME-5", "DISP-6", "LOWER-5", "LOWER-7", "LOWER-8", "LOWER-9", "LOWER-10", "LOWER-11", "LOWER-15", "STORE-13"],
-    "C11": ["DISP-1", "DISP-2", "DISP-3", "DISP-4"],
-    "C12": ["ORD-1", "ORD-2", "ORD-3", "ORD-5"],
-    "C13": ["QUERY-1", "QUERY-2", "QUERY-3", "QUERY-4", "QUERY-5", "QUERY-6", "QUERY-7", "STORE-12", "TOTAL-4", "TOTAL-6", "TOTAL-7"],
+    "C06": ["CTRL-1", "CTRL-2", "CTRL-3", "CTRL-4", "CTRL-8", "CTRL-9", "CTRL-10", "CTRL-11", "STORE-5", "CTRL-12"],
+    "C07": ["DISP-5", "DISP-6", "CTRL-5", "CTRL-7", "LOWER-1", "LOWER-2", "LOWER-3", "LOWER-4", "LOWER-6", "LOWER-7", "LOWER-8", "LOWER-9", "LOWER-10", "LOWER-11", "LOWER-12", "LOWER-13", "LOWER-14", "LOWER-15", "STORE-10", "TOTAL-6", "USE-1", "ATTR-1", "CTRL-12", "LOWER-16", "ORD-6"],
+    "C08": ["LOWER-1", "LOWER-2", "LOWER-3", "LOWER-4", "LOWER-6", "LOWER-12", "LOWER-13", "STORE-10", "ORD-6"],
+    "C09": ["TABLE-1", "TABLE-2", "TABLE-3", "TABLE-4", "TABLE-5", "TABLE-6", "ORD-5", "ORD-6"],
+    "C10": ["NAME-5", "DISP-6", "LOWER-5", "LOWER-7", "LOWER-8", "LOWER-9", "LOWER-10", "LOWER-11", "LOWER-15", "STORE-13", "CTRL-12", "LOWER-16", "ORD-6"],
+    "C11": ["DISP-1", "DISP-2", "DISP-3", "DISP-4", "ORD-6"],
+    "C12": ["ORD-1", "ORD-2", "ORD-3", "ORD-5", "ORD-6"],
+    "C13": ["QUERY-1", "QUERY-2", "QUERY-3", "QUERY-4", "QUERY-5", "QUERY-6", "QUERY-7", "STORE-12", "TOTAL-4", "TOTAL-6", "TOTAL-7", "QUERY-8", "ORD-6"],
     "C14": ["STORE-3", "STORE-4", "STORE-5", "STORE-9", "CTRL-4", "CTRL-8", "NAME-3", "TOTAL-1", "TOTAL-2", "TOTAL-5", "STORE-11"],
-    "C15": ["DISP-8", "DISP-9", "ORD-3", "ORD-4", "TOTAL-6", "TOTAL-8", "ATTR-1"],
-    "C16": ["ITER-1", "TOTAL-6", "STORE-6"],
-    "C17": ["DISP-7", "DISP-10", "ORD-5", "TOTAL-6", "TOTAL-9", "USE-1", "ATTR-1", "INIT-1"],
+    "C15": ["DISP-8", "DISP-9", "ORD-3", "ORD-4", "TOTAL-6", "TOTAL-8", "ATTR-1", "CTRL-12", "DISP-11", "ORD-6"],
+    "C16": ["ITER-1", "TOTAL-6", "STORE-6", "ORD-6"],
+    "C17": ["DISP-7", "DISP-10", "ORD-5", "TOTAL-6", "TOTAL-9", "USE-1", "ATTR-1", "INIT-1", "CTRL-12", "ORD-6"],
     "C18": ["NAME-1", "NAME-2", "NAME-3", "NAME-4", "ORD-5"],
 }
 
@@ -46,6 +46,20 @@ PROPERTY_RULES: Dict[str, List[str]] = {
 # (property, rule) -> module name suffixes whose obligations count for that property
 # (a rule that scans the whole library is narrowed to the code the property is about)
 PROPERTY_SCOPE = {
+    ("C13", "ORD-6"): ("fn:SCFG.", "transformations", "scc"),
+    ("C16", "ORD-6"): ("fn:SCFG.__iter__", "fn:ConcealedRegionView", "fn:AbstractGraphView"),
+    ("C15", "ORD-6"): ("fn:SCFGIO.",),
+    ("C11", "ORD-6"): ("ast_transforms",),
+    ("C07", "ORD-6"): ("ast_transforms", "fn:SCFG.", "fn:ConcealedRegionView", "transformations"),
+    ("C08", "ORD-6"): ("ast_transforms",),
+    ("C10", "ORD-6"): ("ast_transforms", "fn:ConcealedRegionView"),
+    ("C09", "ORD-6"): ("byte_flow", "flow_info", "utils", "basic_block"),
+    ("C17", "ORD-6"): ("rendering", "fn:SCFG.__iter__"),
+    ("C06", "CTRL-12"): ("basic_block", "scfg", "transformations"),
+    ("C15", "CTRL-12"): ("fn:SCFGIO.", "basic_block"),
+    ("C17", "CTRL-12"): ("rendering",),
+    ("C10", "CTRL-12"): ("ast_transforms",),
+    ("C07", "CTRL-12"): ("ast_transforms", "basic_block"),
     ("C09", "ORD-5"): ("byte_flow", "flow_info", "utils", "basic_block"),
     ("C17", "ORD-5"): ("rendering",),
     ("C18", "ORD-5"): ("scfg", "transformations", "ast_transforms", "flow_info"),
